@@ -33,6 +33,10 @@ func propC08(c *Ctx) string {
 	// turns another session's QoS>0 delivery into an unrecorded QoS 0 one
 	c06Cap(c, v)
 	c06Immut(c, v)
+	// retransmission replays what the session's packet store lists: the store must answer with the latest packet
+	// saved under each id, from the store of the direction asked for
+	c18Store(c)
+	c18Dir(c)
 	c.NotDecide("every failure position at runtime (crash points), repeated failures during resend",
 		"that a custom Session really persists what SavePacket was given", "queue capacity limits (messages beyond SessionQueueSize are dropped by design)")
 	c.Assume("instance-insensitive field keys", "Session interface contracts as documented in broker/client.go")
